@@ -210,6 +210,31 @@ def work_hist(chunk):
             if d3 != d1:
                 col.violation({"property": "C09", "sig": "C09:forward-run-after-backward-run-on-same-object-differs:due=%s" % due, "kind": "hist", "spec": spec, "opts": opts, "hist": "back(due=%s,rev=%s);sim" % (due, rev),
                                "detail": {"first_difference": first_diff(d1, d3) if not d3.startswith("ERR") else d3}})
+        # (1b') a backward run that ends in an exception (the "Time Over" warning of a run cut after two steps, raised as an error), then forward
+        import warnings as _w
+
+        mo = runner.prepare(spec, opts)
+        raised = False
+        try:
+            with _w.catch_warnings():
+                _w.simplefilter("error")
+                mo.project.backward_simulate(**dict(runner.sim_kwargs(opts), max_time=2))
+        except Warning:
+            raised = True
+        except Exception:
+            raised = None  # (the backward run itself failed for another reason: no statement)
+        if raised:
+            try:
+                mo.project.simulate(**runner.sim_kwargs(opts))
+                d3 = jdump(mo)
+            except Exception as e:
+                d3 = "ERR:" + repr(e)
+            col.evaluations += 2
+            col.checks["c09.aborted-backward-then-forward"] += 1
+            col.transitions.add(hash((key, "back!;sim")))
+            if d3 != d1:
+                col.violation({"property": "C09", "sig": "C09:forward-run-after-an-aborted-backward-run-on-same-object-differs", "kind": "hist", "spec": spec, "opts": opts, "hist": "back(max_time=2, warnings as errors);sim",
+                               "detail": {"first_difference": first_diff(d1, d3) if not d3.startswith("ERR") else d3}})
         # (1c) a run stopped at step k, then started again: with everything reset it must equal the reference; with the states
         #      reset and the logs kept, what is appended to the logs must be the reference run (absence-free models: nothing depends on absolute time)
         ref_d = json.loads(d1)
@@ -663,7 +688,7 @@ def falsy_id_rebuild(col):
     from pDESy.model.base_workflow import BaseWorkflow
     from pDESy.model.base_workplace import BaseWorkplace
 
-    def build(ids):
+    def build(ids, stop=None):
         a = BaseTask("a", ID=ids[0], default_work_amount=2.0, need_facility=True)
         b = BaseTask("b", ID=ids[1], default_work_amount=2.0)
         b.append_input_task(a)
@@ -677,6 +702,9 @@ def falsy_id_rebuild(col):
         tm = BaseTeam("tm", ID=ids[7], worker_list=[w0, w1])
         tm.extend_targeted_task_list([a, b])
         p = BaseProject(product=BaseProduct([c]), workflow=BaseWorkflow([a, b]), organization=BaseOrganization([tm], [wp]))
+        if stop is not None:
+            p.simulate(max_time=stop)
+            return p
         p.simulate(max_time=20)
         return jdump(S.adopt(p))
 
@@ -696,6 +724,31 @@ def falsy_id_rebuild(col):
             if d1 != d2:
                 col.violation({"property": "C09", "sig": "C09:two-builds-with-the-same-explicit-IDs-differ(an-ID-of-0-or-empty-string)", "kind": "falsyid", "address_dependent": True,
                                "detail": {"ids": ids, "first_difference": first_diff(d1, d2)}})
+            # the same model stopped after one step (the component is placed, the pair is at work): the copy rebuilt from its JSON goes on like the original
+            import os
+            import tempfile
+
+            try:
+                p1 = build(ids, stop=1)
+                fd, path = tempfile.mkstemp(prefix="verif-c09f-", suffix=".json")
+                os.close(fd)
+                try:
+                    p1.write_simple_json(path)
+                    p2 = BaseProject()
+                    p2.read_simple_json(path)
+                finally:
+                    os.unlink(path)
+                p1.simulate(max_time=20, initialize_state_info=False, initialize_log_info=False)
+                p2.simulate(max_time=20, initialize_state_info=False, initialize_log_info=False)
+                c1, c2 = jdump(S.adopt(p1)), jdump(S.adopt(p2))
+            except Exception as e:
+                col.extra["falsy-id-continue-raised:%s" % type(e).__name__] += 1
+                continue
+            col.evaluations += 2
+            col.checks["c09.falsy-ids-continued"] += 1
+            if c1 != c2:
+                col.violation({"property": "C09", "sig": "C09:continuation-of-a-rebuilt-copy-differs-from-the-original-objects(an-ID-of-0-or-empty-string)", "kind": "falsyid",
+                               "detail": {"ids": ids, "first_difference(original, copy)": first_diff(c1, c2)}})
 
 
 def cross_process(col):
